@@ -377,6 +377,13 @@ def run_case(desc):
                     f'`gemato {short}`: SystemExit({oc.value!r})',
                     sig='SystemExit', classes=classes)
             reached = True
+            if oc.escaped and oc.kind in ('gemato', 'mismatch',
+                                          'incompatible', 'loop', 'xdev'):
+                return violation(
+                    f'`gemato {short}`: a library exception left main() '
+                    f'instead of being logged with exit status 1\n'
+                    + buckets.describe(oc.exc),
+                    sig='library-exception-escaped-main', classes=classes)
             if oc.kind in ('return', 'gemato', 'mismatch', 'incompatible',
                            'loop', 'xdev'):
                 rc = oc.value
